@@ -331,6 +331,10 @@ func (ex *Exec) makeSlice(st *State, t types.Type, ln, cp *Term, lt, ct types.Ty
 
 // wildAlloc records an allocation whose size is not bounded by the harness's limit.
 func (ex *Exec) wildAlloc(st *State, n *Term) {
+	// prefer a counterexample the native replay can survive (<= 2^20 elements instead of up to 2^40)
+	if small := ex.Ctx.Sle(n, ex.i64(1<<20)); !n.IsConst() && st.feasible(small) == Sat {
+		st.addPC(small)
+	}
 	ex.fail(st, "alloc/proportional", ex.Ctx.True)
 	st.status = Infeasible
 	panic(abort{"stop", "wild allocation"})
